@@ -42,7 +42,7 @@ type C06Entry struct {
 
 type C06DBI struct {
 	Name    string     `json:"name"`
-	Kind    string     `json:"kind"` // plain | int4 | int8 | dupsort
+	Kind    string     `json:"kind"` // plain | int4 | int8 | dupsort | revkey (keys compared from their last byte)
 	Entries []C06Entry `json:"entries"`
 }
 
@@ -72,6 +72,8 @@ func c06Flags(kind string) uint {
 		return 0x08
 	case "dupsort":
 		return lmdb.DupSort
+	case "revkey":
+		return lmdb.ReverseKey
 	}
 	return 0
 }
@@ -460,6 +462,10 @@ func genC06(t *rapid.T) C06Case {
 		kinds := []string{"plain", "plain", "plain", "int4", "int8"}
 		if !c.Native {
 			kinds = append(kinds, "dupsort")
+		} else {
+			// (native mode only: in shadow mode the capture pass refuses a DBI whose key order is not the plain byte
+			// order - "keys not sorted" - so such a DBI never gets as far as a snapshot)
+			kinds = append(kinds, "revkey")
 		}
 		d.Kind = rapid.SampledFrom(kinds).Draw(t, "kind")
 		var ne int
